@@ -605,8 +605,14 @@ def has_side_effect(node: ast.AST, safe_callable_whitelist: Collection[str] = fr
     ):
         return True
 
-    if isinstance(node, (ast.ClassDef, ast.FunctionDef, ast.AsyncFunctionDef)):
+    if isinstance(node, (ast.FunctionDef, ast.AsyncFunctionDef)):
         return node.name != "_"
+
+    if isinstance(node, ast.ClassDef):
+        # The body of a class is executed when the class is defined
+        return node.name != "_" or any(
+            has_side_effect(child, safe_callable_whitelist) for child in node.body
+        )
 
     if isinstance(node, ast.For):
         return any(
@@ -690,7 +696,15 @@ def has_side_effect(node: ast.AST, safe_callable_whitelist: Collection[str] = fr
             has_side_effect(child, safe_callable_whitelist) for child in (node.lower, node.upper)
         )
 
-    if isinstance(node, (ast.DictComp)) and has_side_effect(node.value, safe_callable_whitelist):
+    if isinstance(node, (ast.DictComp)) and (
+        has_side_effect(node.key, safe_callable_whitelist)
+        or has_side_effect(node.value, safe_callable_whitelist)
+    ):
+        return True
+
+    if isinstance(node, (ast.SetComp, ast.ListComp, ast.GeneratorExp)) and has_side_effect(
+        node.elt, safe_callable_whitelist
+    ):
         return True
 
     if isinstance(node, (ast.SetComp, ast.ListComp, ast.GeneratorExp, ast.DictComp)):
